@@ -274,7 +274,8 @@ impl<S: Syntax, D> SyntaxToken<S, D> {
 
         debug_assert!(self.static_text().is_some());
         debug_assert!(other.static_text().is_some());
-        self.syntax_kind() == other.syntax_kind()
+        // different kinds may still have the same static text
+        self.syntax_kind() == other.syntax_kind() || self.static_text() == other.static_text()
     }
 
     /// Returns the interned key of text covered by this token, if any.
